@@ -44,7 +44,7 @@ func NewMerger(
 ) (m *Merger, err error) {
 	m = &Merger{
 		db:             db,
-		errChan:        make(chan error, len(otherTs)),
+		errChan:        make(chan error, len(otherTs)+2), // the differs, mergeTables and the collector each report at most one error
 		progressPeriod: progressPeriod,
 		baseT:          baseT,
 		otherTs:        otherTs,
